@@ -15,8 +15,10 @@ function runJob(job) {
       const X = (a) => (a == null ? Object.create(null) : a)
       const P = (a) => (typeof a === 'function' ? a : () => {})
       const Y = (a) => (a == null ? '' : String(a))
-      // array spread is only specified for arrays without holes (anything else is out of the reference's domain)
+      // array spread: arrays without holes, and strings (their characters); anything else (where JavaScript throws, or
+      // array-likes that concat and the iteration protocol treat differently) is out of the reference's domain
       const REFSPREAD = (a) => {
+        if (typeof a === 'string') return Array.from(a)
         if (!Array.isArray(a)) throw new Error('$SKIP spread of a non-array')
         for (let i = 0; i < a.length; i += 1) if (!(i in a)) throw new Error('$SKIP spread of a sparse array')
         return a
